@@ -7,9 +7,9 @@ import vlib
 LEVEL = "model_checking"
 MANIFEST = {
     "engine": "tlc IndexStore (histories) + tlc IndexCache (implementation-level explorer) + vhcrash c20 (fault-injecting billy filesystem, logical mtimes) + tlc IndexStoreTrace (view = Decode(disk))",
-    "technique": "TLC enumerates every sequence of worktree operations (add file / directory / all / glob, remove, move, commit, hard / sparse / file reset, forced and sparse checkout, status) and external index rewrites (size only, mtime only, both, file deleted) up to the depth bound; each history is replayed on one long-lived filesystem Storage + Worktree, the last operation first counted and then re-run with a transient I/O error injected at its k-th filesystem step for every k (reads included; repeated because Go map order changes the visiting order); after each history Storer.Index() of the long-lived storage and the decode of the file by a brand-new storage are recorded and TLC evaluates view = Decode(disk) on every record; an implementation-level TLA+ model of the stat-validated cache with shared entry cells is checked by TLC and predicts the failing scenarios",
-    "text": "Exhaustive over operation sequences of length <= 2 (thorough 3) over 17 operations; fault points exhaustive for histories of length 1 (thorough <= 2), a seeded sample of 6 (thorough 3) per longer history; every injected fault is a single failing filesystem call (open, read, stat, create, write, rename, close, lock ...) of the operation under test.",
-    "note": "One small repository (4-5 paths, 2 branches); modification times come from a logical clock so 'same mtime, other size' and 'same size, later mtime' are chosen inputs (same-size same-mtime rewrites are excluded by the property); the external writer is a second go-git Storage without shared cache (git's reading of the same file is compared with the fresh decode on a sample); in-memory filesystem.",
+    "technique": "TLC enumerates every sequence of worktree operations (add file / directory / all / glob, remove, move, commit, hard / sparse / file reset, forced and sparse checkout, status) and external index rewrites (size only, mtime only by whole seconds, mtime only by one nanosecond within the same second, both, file deleted) up to the depth bound; each history is replayed on one long-lived filesystem Storage + Worktree, the last operation first counted and then re-run with a transient I/O error injected at its k-th filesystem step for every k (reads included; repeated because Go map order changes the visiting order); after each history Storer.Index() of the long-lived storage and the decode of the file by a brand-new storage are recorded and TLC evaluates view = Decode(disk) on every record; an implementation-level TLA+ model of the stat-validated cache with shared entry cells is checked by TLC and predicts the failing scenarios",
+    "text": "Exhaustive over operation sequences of length <= 2 (thorough 3) over 18 operations; fault points exhaustive for histories of length 1 (thorough <= 2), a seeded sample of 6 (thorough 3) per longer history; every injected fault is a single failing filesystem call (open, read, stat, create, write, rename, close, lock ...) of the operation under test.",
+    "note": "One small repository (4-5 paths, 2 branches); modification times come from a logical clock so 'same mtime, other size' and 'same size, later mtime (by a second, or by one nanosecond within the same second)' are chosen inputs (same-size same-mtime rewrites are excluded by the property); the external writer is a second go-git Storage without shared cache (git's reading of the same file is compared with the fresh decode on a sample); in-memory filesystem.",
 }
 
 HIST_CFG = """CONSTANTS MaxOps = %d
@@ -18,7 +18,7 @@ NEXT Next
 INVARIANTS ViewIsDisk TypeOK Emit
 CHECK_DEADLOCK FALSE
 """
-IMPL_CFG = """CONSTANTS DeepCopy = %s MaxClock = 3
+IMPL_CFG = """CONSTANTS DeepCopy = %s MaxClock = 3 Granularity = "%s"
 INIT Init
 NEXT Next
 INVARIANTS TypeOK ViewIsDisk
@@ -49,10 +49,13 @@ def run(ctx):
         for h in uniq:
             f.write(json.dumps(h) + "\n")
     # ---- implementation-level spec: the shared-cell cache breaks the invariant, private cells restore it
-    bad = ctx.tlc("IndexCache", cfg_text=IMPL_CFG % "FALSE", workers=1, timeout=600, expect_violation=True, count=False)
-    good = ctx.tlc("IndexCache", cfg_text=IMPL_CFG % "TRUE", timeout=600)
+    bad = ctx.tlc("IndexCache", cfg_text=IMPL_CFG % ("FALSE", "full"), workers=1, timeout=600, expect_violation=True, count=False)
+    good = ctx.tlc("IndexCache", cfg_text=IMPL_CFG % ("TRUE", "full"), timeout=600)
     ctx.cov["impl_model"] = {"shared_cells_violates": bad.violated, "private_cells_states": good.distinct,
                              "counterexample": "Begin(op) -> StepCell(p) -> FailOp: a cached cell is mutated, no write, the (mtime,size) stamp still matches"}
+    if ctx.thorough:   # a stamp kept at whole seconds misses a same-size rewrite within the second (model level)
+        coarse = ctx.tlc("IndexCache", cfg_text=IMPL_CFG % ("TRUE", "seconds"), workers=1, timeout=600, expect_violation=True, count=False)
+        ctx.cov["impl_model"]["seconds_granularity_violates"] = coarse.violated
     if bad.violated != "ViewIsDisk":
         ctx.notes.append("IndexCache (shared cells) no longer violates ViewIsDisk: the implementation-level model has drifted")
     # ---- conformance: replay with fault enumeration, judge every observation in TLA+
